@@ -419,7 +419,12 @@ func randomScen() scen {
 		sc.solo = -1
 		cands := []int{exact, fits, almost, idShort1, idHot1}
 		for i := 1; i < nth; i++ {
-			sc.progs = append(sc.progs, newProg(cands, 1+rnd.Intn(2), 1))
+			pr := newProg(cands, 1+rnd.Intn(2), 1)
+			if i == 1 && rnd.Chance(60) {
+				// the first record after the fillers is the one that would end exactly at the page end
+				pr[0].name = exact
+			}
+			sc.progs = append(sc.progs, pr)
 		}
 	case "mixed":
 		names := append(append(append(append([]int{}, hot...), cold...), shorts...), longs...)
